@@ -162,6 +162,7 @@ def run_case(spec):
             else:
                 # ---- problems rejected by the solver / options
                 if cls == "terminal_inside_film":
+                    dspec["holes"] = []  # (a hole outline is a boundary too: a terminal on it is legitimate)
                     dspec["terminals"][0].update(center=[0.0, 0.0], w=0.05 * dspec["film"]["w"], h=0.05 * dspec["film"]["h"])
                 elif cls == "terminal_outside_film":
                     dspec["terminals"][0]["center"] = [dspec["film"]["w"] * 3, 0.0]
